@@ -244,6 +244,7 @@ static const char *rword(void) { return WORDS[vh_below(NWORDS)]; }
 static spif_obj_t mk_label(void) { return (spif_obj_t) spif_str_new_from_ptr((spif_charptr_t) rword()); }
 
 static spif_obj_t make(int k, int depth);
+static int no_nest;     /* comparison sets are kept class-homogeneous element-wise: comparing a list with a string is a caller error */
 
 static spif_obj_t make_str(void)
 {
@@ -290,7 +291,7 @@ static spif_obj_t make_mbuff(void)
 static spif_obj_t make_pair(int depth)
 {
     int v = (int) vh_below(5);
-    spif_obj_t k = mk_label(), val = depth < 2 && vh_coin(25) ? make(K_ALIST + (int) vh_below(3), depth + 1) : mk_label();
+    spif_obj_t k = mk_label(), val = depth < 2 && !no_nest && vh_coin(25) ? make(K_ALIST + (int) vh_below(3), depth + 1) : mk_label();
     spif_objpair_t p;
     switch (v) {
     case 0: p = spif_objpair_new_from_key(k); vh_op("objpair_new_from_key"); break;           /* value absent */
@@ -318,12 +319,14 @@ static spif_obj_t make_url(void)
 {
     static const char *U[] = { "http://user:pw@host.example:8080/path/x?q=1", "ftp://host/", "host.only", "/bare/path", "mailto:someone@example.org",
                                "http://h", "proto://u@h:1/p?x", "file:///etc/passwd", "a:b", "" };
-    int v = (int) vh_below(4);
+    int v = (int) vh_below(6);
     const char *src = U[vh_below(10)];
     spif_url_t u;
     if (v == 0) { u = spif_url_new(); vh_op("url_new()"); return (spif_obj_t) u; }
     u = spif_url_new_from_ptr((spif_charptr_t) src); vh_op("url_new_from_ptr(%s) variant %d", vh_qs(src), v);
     if (u && v == 3) spif_url_unparse(u);
+    if (u && v == 4) { vh_op("url_set_path + url_set_user, not unparsed"); spif_url_set_path(u, spif_str_new_from_ptr((spif_charptr_t) "/changed")); spif_url_set_user(u, spif_str_new_from_ptr((spif_charptr_t) "someone")); }
+    if (u && v == 5) { vh_op("url_set_port, then unparse"); spif_url_set_port(u, spif_str_new_from_ptr((spif_charptr_t) "8088")); spif_url_unparse(u); }
     return (spif_obj_t) u;
 }
 static spif_obj_t make_regexp(void)
@@ -347,7 +350,7 @@ static spif_obj_t make_container(int k, int depth)
         if (shape == 0) return c;
         int n = shape == 1 ? 1 : (int) vh_range(2, 6);
         for (int i = 0; i < n; i++) {
-            spif_obj_t e = (shape == 5 && depth < 2 && vh_coin(40)) ? make(K_ALIST + (int) vh_below(3), depth + 1) : mk_label();
+            spif_obj_t e = (shape == 5 && depth < 2 && !no_nest && vh_coin(40)) ? make(K_ALIST + (int) vh_below(3), depth + 1) : mk_label();
             if (vh_coin(70)) SPIF_LIST_APPEND((spif_list_t) c, e); else SPIF_LIST_PREPEND((spif_list_t) c, e);
         }
         if (shape == 4) {       /* NULL placeholders: insert_at past the end */
@@ -370,7 +373,7 @@ static spif_obj_t make_container(int k, int depth)
         if (shape == 0) return c;
         int n = shape == 1 ? 1 : (int) vh_range(2, 6);
         for (int i = 0; i < n; i++) {
-            spif_obj_t key = mk_label(), val = (shape == 5 && depth < 2 && vh_coin(30)) ? make(K_ALIST + (int) vh_below(3), depth + 1) : mk_label();
+            spif_obj_t key = mk_label(), val = (shape == 5 && depth < 2 && !no_nest && vh_coin(30)) ? make(K_ALIST + (int) vh_below(3), depth + 1) : mk_label();
             SPIF_MAP_SET((spif_map_t) c, key, val);
             SPIF_OBJ_DEL(key); SPIF_OBJ_DEL(val);
         }
@@ -592,6 +595,7 @@ static void scenario_comp(int k)
     spif_obj_t v[N];
     char *ov[N];
     int far = IS_CONT(k) && vh_coin(50);
+    no_nest = 1;
     v[0] = NULL;
     for (int i = 1; i < N; i++) {
         if (far) { v[i] = make_far(k, i); if (!v[i]) { far = 0; v[i] = make(k, 0); } }
@@ -599,6 +603,7 @@ static void scenario_comp(int k)
         else v[i] = make(k, 0);
         if (!v[i]) { vh_count("factory_returned_null", 1); v[i] = make(k, 0); }
     }
+    no_nest = 0;
     for (int i = 0; i < N; i++) ov[i] = observe(v[i]);
     int c[N][N];
     for (int i = 0; i < N; i++) for (int j = 0; j < N; j++) {
@@ -670,6 +675,7 @@ int main(int argc, char **argv)
             int k = (int) (vh_case_idx % K_NCLASS);
             if (getenv("C05_CLASS")) k = atoi(getenv("C05_CLASS")) % K_NCLASS;     /* debugging aid: force one class */
             int what = (int) ((vh_case_idx / K_NCLASS) % 3);
+            no_nest = 0;
             if (what < 2) scenario_dup(k); else scenario_comp(k);
             if ((vh_case_idx % 997) == 0) vh_sample("case %ld: class %s, %s scenario", vh_case_idx, KNAME[k], what < 2 ? "dup/independence" : "comparison laws");
         }
